@@ -283,8 +283,14 @@ def must_pass_guard(ctx, rid, body, sink_blocks, guard_pred, guard_name, sink_na
     return res
 
 
+def site_block(r):
+    """the block to ask dominance / reachability-of-this-outcome questions about: where the outcome's value is made when the
+    return statement merely copies a local that is set on several paths, else the returning block"""
+    return r.get("def_block", r["block"])
+
+
 def success_blocks(fv):
-    return [(r["block"], r["line"]) for r in fv.success_sites()]
+    return [(site_block(r), r["line"]) for r in fv.success_sites()]
 
 
 def call_blocks(fv, pred):
